@@ -18,6 +18,7 @@ Definition budget_positive (max_attempts : Z) : bool := (max_attempts >? (0)).
 Definition budget_next (max_attempts : Z) : Z := (max_attempts - (1)).
 Definition warn_on_exhaustion : bool := true.
 
+(* sample_negatives: one generator `rng = random_generator(rng)`; every draw is rng.choice, and `if verify:` hands rng itself to the check of each output column *)
 (* sample_negatives, `match weighting` *)
 Definition uniform_population : population := PopCols.
 Definition uniform_colmap : colmap := ColIdentity.
